@@ -10,7 +10,8 @@
    The cursor monitor c04_b of Spec/Consumer.v reads the root of a discovery-mode stream from the trace:
    root_ref LNone t = the cursor LIB of the first delivered event. *)
 From BV Require Import Base.Prelude Model.Block Model.ForkDB Model.Forkable Spec.Consumer Spec.Universe
-  Spec.C01_Spec Spec.C01_Moving_Spec Spec.C01_Roots_Spec Spec.C04_Spec Spec.C04_Moving_Spec.
+  Spec.C01_Spec Spec.C01_Moving_Spec Spec.C01_Roots_Spec Spec.C04_Spec Spec.C04_Moving_Spec
+  Check.Fk_Check Check.Fk_Props_Check.
 Local Open Scope N_scope.
 
 (* ---------------------------------------------------------------- the shape of a discovery-mode run *)
@@ -48,6 +49,21 @@ Definition c04_discovery_statement : Prop :=
     disc_scope2_b h = true ->
     c04_statement cfg LNone h /\
     (c_fail_at cfg = None -> c04d_run (f_irr (c_filter cfg)) [] h (fk_run cfg (fs_init LNone) h)).
+
+(* ---------------------------------------------------------------- on the observations of the check *)
+
+(* the generated discovery-mode cases that meet every hypothesis of c04_discovery_statement (the filter of the
+   evidence counter "cases_meeting_theorem_hypotheses") *)
+Definition c04_disc_thm_scope (k : fk_case) : bool :=
+  match k_mode k with
+  | LNone => c_hold (k_cfg k) && negb (c_incl (k_cfg k)) && filt_nu k && disc_scope2_b (k_hist k)
+  | _ => false
+  end.
+
+(* c04_full on those cases, in the form the check evaluates it: every observation that corresponds to the model
+   (events and results of every call, any handler oracle) passes the checker's c04_prop *)
+Definition c04_discovery_observed : Prop :=
+  forall k, c04_disc_thm_scope k = true -> fk_corresponds k = true -> c04_prop k = true.
 
 (* What remains between this, c04_moving_lib_roots_statement and c04_full (Spec/C04_Spec.v):
    - a configured starting LIB that is incoherent with the history, histories outside lib_ok_b;
